@@ -34,7 +34,7 @@ impl<T: RealNumber> KMeans<T> {
         ensures
             // parameter validation
             (parameters.k < 2 || parameters.max_iter == 0) ==> r is Err, //# fit-rejects-k-below-2-and-zero-iterations
-            (parameters.k >= 2 && parameters.max_iter >= 1) ==> r is Ok,
+            (parameters.k >= 2 && parameters.max_iter >= 1) ==> r is Ok, //# fit-succeeds-on-valid-parameters
             r is Ok ==> {
                 let m = r->Ok_0;
                 let n = data.nrows_spec();
@@ -57,7 +57,8 @@ impl<T: RealNumber> KMeans<T> {
         let ghost rows = mat_rows(data);
 //@loop 1
             invariant
-                n == data.nrows_spec(), parameters.k >= 2,
+                n == data.nrows_spec(),
+                parameters.k >= 2, //# fit-continues-only-with-k-at-least-2
                 y@.len() == n, forall|a: int| 0 <= a < n ==> #[trigger] y@[a] < parameters.k,
                 size@.len() == parameters.k,
                 forall|c: int| 0 <= c < parameters.k ==> #[trigger] size@[c] <= i,
@@ -102,12 +103,12 @@ impl<T: RealNumber> KMeans<T> {
                 forall|c: int| 0 <= c < parameters.k ==> (#[trigger] centroids@[c])@.len() == d,
                 // no clustering yet: the iteration range 1..=max_iter is not exhausted
                 VERUS_ghost_iter.iter.obeys_prophetic_iter_laws(),
-                !done ==> VERUS_ghost_iter.iter.remaining().len() > 0,
+                !done ==> VERUS_ghost_iter.iter.remaining().len() > 0, //# inv-iteration-range-not-exhausted-before-the-first-clustering
                 // after every (complete or interrupted) iteration: (y, size, sums) are the statistics of the clustering
                 // call of THIS iteration and the centroids with members have been recomputed from them
                 done ==> centroids_are_means(rows, y@, deep(sums@), size@, deep(centroids@), parameters.k as int, d as int), //# inv-centroids-belong-to-the-last-clustering
             ensures
-                done,
+                done, //# at-least-one-clustering-call-was-made
 //@after bbd.clustering(
             proof {
                 done = true;
@@ -123,7 +124,7 @@ impl<T: RealNumber> KMeans<T> {
                     centroids@.len() == parameters.k,
                     forall|c: int| 0 <= c < parameters.k ==> (#[trigger] centroids@[c])@.len() == d,
                     forall|c: int, j: int| 0 <= c < i && 0 <= j < d && size@[c] > 0
-                        ==> #[trigger] centroids@[c]@[j] == sums@[c]@[j].div_spec(T::from_spec::<usize>(size@[c])),
+                        ==> #[trigger] centroids@[c]@[j] == sums@[c]@[j].div_spec(T::from_spec::<usize>(size@[c])), //# inv-recomputed-centroids-are-sum-over-size
 //@loop 8
                         invariant
                             T::obeys_div_spec(), forall|a: T, b: T| #[trigger] a.div_req(b),
@@ -136,11 +137,11 @@ impl<T: RealNumber> KMeans<T> {
                             forall|c: int, j: int| 0 <= c < i && 0 <= j < d && size@[c] > 0
                                 ==> #[trigger] centroids@[c]@[j] == sums@[c]@[j].div_spec(T::from_spec::<usize>(size@[c])),
                             forall|b: int| 0 <= b < j
-                                ==> #[trigger] centroids@[i as int]@[b] == sums@[i as int]@[b].div_spec(T::from_spec::<usize>(size@[i as int])),
+                                ==> #[trigger] centroids@[i as int]@[b] == sums@[i as int]@[b].div_spec(T::from_spec::<usize>(size@[i as int])), //# inv-centroid-entry-is-sum-over-size
 //@before Ok(KMeans {
         proof {
             let k = parameters.k as int;
-            assert(centroids_are_means(rows, y@, deep(sums@), size@, deep(centroids@), k, d as int));
+            assert(centroids_are_means(rows, y@, deep(sums@), size@, deep(centroids@), k, d as int)); //# returned-centroids-belong-to-the-returned-assignment
             lemma_sum_counts(y@, n as int, k);
             lemma_sum_sizes(size@, y@, n as int, k);
         }
